@@ -259,4 +259,39 @@ def runRaised (c : Cfg) (pre : List (Stmt α)) (progs : List (List (Atom α))) (
   | .raised _ => true
 
 end
+/-! ### `EnvironmentContext.configure` called several times in one env.py run
+
+`opts = self.context_opts` is one dict for the whole `EnvironmentContext` (one env.py run) and
+every `configure()` call writes into it (alembic/runtime/environment.py):
+
+```
+if transactional_ddl is not None:
+    opts["transactional_ddl"] = transactional_ddl          # kept from an earlier call when not given
+opts["transaction_per_migration"] = transaction_per_migration   # always overwritten
+```
+
+so the two settings of the property reach the `MigrationContext` of the k-th call as follows. -/
+
+structure ConfigureArgs where
+  tddl : Option Bool      -- `transactional_ddl=` (None = not given)
+  perMig : Bool           -- `transaction_per_migration=` (default False)
+  deriving Repr, DecidableEq
+
+structure CtxOpts where
+  tddl : Option Bool := none
+  perMig : Bool := false
+  deriving Repr, DecidableEq
+
+def configureCall (o : CtxOpts) (a : ConfigureArgs) : CtxOpts :=
+  { tddl := match a.tddl with
+      | some b => some b
+      | none => o.tddl,
+    perMig := a.perMig }
+
+def configureAll (o : CtxOpts) (calls : List ConfigureArgs) : CtxOpts := calls.foldl configureCall o
+
+/-- `(impl.transactional_ddl, _transaction_per_migration)` of the context made from `o`;
+    `dialectDefault` = the dialect's class attribute `transactional_ddl` -/
+def effective (dialectDefault : Bool) (o : CtxOpts) : Bool × Bool := (o.tddl.getD dialectDefault, o.perMig)
+
 end Model.Online
